@@ -14,6 +14,12 @@ CHECKS = {
  "C05": dict(tech="TLC trace validation of call sequences: convertible-function calls of source and target compared in order with argument values; device values scripted",
    text="GenExpr.tla enumerates nestings of the convertible functions inside each other, inside built-in functions and arithmetic; each nesting is placed in 28 statement contexts (assignment, array target/subscript, IF / IF-ELSE / ELSE-IF, FOR bounds, PRINT / PRINT@, ON, READ / INPUT targets, WIDTH, device operands, re-executed lines). Trace_Refine.tla runs both programs and compares the sequence of calls (name, argument values), rejects reads of unassigned temporaries and lost operands.",
    note="Trusted: as C01. Library procedures behave as the Color BASIC function they stand for (assume/guarantee, DESIGN 2.3).", ref="5 C05"),
+ "C03": dict(tech="TLC trace validation on the common TLA+ machine; PRINT/DATA lists enumerated by a TLA+ generator machine",
+   text="GenSeq.tla enumerates every PRINT list (items x ; , juxtaposition, leading/trailing separators) and every DATA list over nine item kinds up to a length bound; programs with DIM in 1-3 dimensions (decimal/hex), implicit arrays, boundary subscripts, INPUT/LINE INPUT forms, and the ten string functions for all strings up to length 3 over {A,B} and indices 0..4 are converted by the real tool (string storage 32 and 80, initialise on/off) and Trace_Refine.tla compares output events, prompts, store changes; with pre-initialisation requested a read of an unassigned variable or element in the target is a violation.",
+   note="Trusted: as C01. READ of a numeric item into a string (and vice versa) and strings longer than the declared size are unjudged. Number formatting itself is the library's contract (assume/guarantee).", ref="5 C03"),
+ "C04": dict(tech="TLC trace validation: device events by role; parameter positions read by TLC from the library text of the working tree",
+   text="71 device statement / function forms x presence patterns of optional operands x operand shapes (literal, variable, expression, parenthesised, convertible function) are converted by the real tool; Trace_C04.tla runs source and target: the source emits dev(procedure, operand values by role with the documented defaults), the target's RUN arguments are mapped through the PARAM names parsed from ecb.b09; plus the HBUFF prologue iff clause.",
+   note="Trusted: as C01, and the role table DevSig in Machine.tla (Appendix A of DESIGN.md). If a library parameter is renamed the check falls back to the pinned position.", ref="5 C04"),
 }
 NA_REASON = "check not built yet in this round (work in progress; see DESIGN.md Appendix D)"
 m = {"version": 1, "setup_cmd": "cd /verif && ./setup.sh",
